@@ -21,7 +21,7 @@
 
     The definitions are executable: [spec_scan] is at the same time the
     boolean oracle's reference ([scan_ok_b]). *)
-From Coq Require Import List NArith Bool.
+From Coq Require Import List NArith Bool Sorting.Sorted.
 From NoKV Require Import Base.Bytes Model.Keys Model.Lsm Spec.MvccSpec.
 Import ListNotations.
 Local Open Scope N_scope.
@@ -150,3 +150,19 @@ Definition spec_get (now : N) (ws pw : list rec) (readTs : N) (u : bytes) : opti
   | Some x => if live now x then Some (r_val x) else None
   | None => None
   end.
+
+(** The same specification as a relation (scans without AllVersions): the
+    listing is strictly monotone in the user key (ascending, descending when
+    reversed) and contains exactly the visible items: the key passes the
+    bounds / prefix / seek target, the snapshot's point view of the key exists,
+    is live and (SinceTs) recent enough, and the item carries its version and
+    value.  [Proofs/IterProofs.v: spec_scan_rel, scan_rel_unique] show that
+    [spec_scan] is the one listing in this relation. *)
+Definition item_visible (now : N) (ws pw : list rec) (readTs : N) (so : sopts) (i : sitem) : Prop :=
+  key_ok so (s_key i) = true /\
+  exists x, view ws pw readTs (sbase (s_key i)) = Some x /\ live now x = true /\ ver_ok so (r_ver x) = true
+            /\ s_ver i = r_ver x /\ s_val i = r_val x.
+Definition key_order (rv : bool) (a b : sitem) : Prop :=
+  bytes_cmp (s_key a) (s_key b) = if rv then Gt else Lt.
+Definition scan_rel (now : N) (ws pw : list rec) (readTs : N) (so : sopts) (l : list sitem) : Prop :=
+  StronglySorted (key_order (so_rev so)) l /\ forall i, In i l <-> item_visible now ws pw readTs so i.
